@@ -35,8 +35,210 @@ def const_nat(src, name):
     return v
 
 
+def write_if_changed(path, body):
+    if not os.path.exists(path) or open(path).read() != body:
+        open(path, "w").write(body)
+
+
 def opt(v):
     return "none" if v is None else f"(some {v})"
+
+
+def match_brace(src, i):
+    """index just after the brace block that opens at src[i] == '{'"""
+    depth = 0
+    j = i
+    n = len(src)
+    while j < n:
+        c = src[j]
+        if c == '"':
+            j += 1
+            while j < n and src[j] != '"':
+                j += 2 if src[j] == "\\" else 1
+        elif src.startswith("//", j):
+            j = src.find("\n", j)
+            if j < 0:
+                return n
+        elif c == "{":
+            depth += 1
+        elif c == "}":
+            depth -= 1
+            if depth == 0:
+                return j + 1
+        j += 1
+    return n
+
+
+def block_after(src, pattern, start=0):
+    m = re.compile(pattern).search(src, start)
+    if not m:
+        return None
+    i = src.find("{", m.end() - 1)
+    if i < 0:
+        return None
+    return src[i:match_brace(src, i)]
+
+
+def fn_body(impl_block, fn_name):
+    m = re.search(r"fn\s+" + fn_name + r"\b", impl_block)
+    if not m:
+        return None
+    # the body is the first '{' after the signature's where clause: skip to the '{' that follows ')'
+    i = impl_block.find("{", m.end())
+    # `where S: ... ,` has no braces, so the first '{' opens the body
+    return impl_block[i:match_brace(impl_block, i)]
+
+
+WRITE_SIMPLE = {"string": "string", "bytes": "bytes", "u8": "u8", "i8": "i8", "u16": "u16", "i32": "i32",
+                "u64": "u64", "uuid": "uuid", "text_component": "text"}
+READ_SIMPLE = {"string": "string", "bool": "bool", "u8": "u8", "i8": "i8", "u16": "u16", "i32": "i32",
+               "u64": "u64", "uuid": "uuid", "text_component": "text"}
+
+
+def depth_at(body, pos):
+    d = 0
+    for c in body[:pos]:
+        if c == "{":
+            d += 1
+        elif c == "}":
+            d -= 1
+    return d - 1   # the body's own brace
+
+
+def write_ops(body):
+    ops = []
+    for m in re.finditer(r"buffer\s*\.\s*write_(\w+)\s*\(", body):
+        kind = m.group(1)
+        # argument text up to the matching ')'
+        i = m.end() - 1
+        d = 0
+        j = i
+        while j < len(body):
+            if body[j] == "(":
+                d += 1
+            elif body[j] == ")":
+                d -= 1
+                if d == 0:
+                    break
+            j += 1
+        arg = re.sub(r"\s+", "", body[i + 1:j])
+        if kind == "varint":
+            if arg == "0":
+                op = "varintZero"
+            elif arg.endswith(".into()"):
+                op = "varintInto"
+            elif arg.startswith("VarInt::from("):
+                op = "varintFrom"
+            elif re.fullmatch(r"self\.\w+", arg):
+                op = "varint"
+            else:
+                return None
+        elif kind == "bool":
+            op = "boolIsSome" if arg.endswith(".is_some()") else "bool"
+        elif kind in WRITE_SIMPLE:
+            op = WRITE_SIMPLE[kind]
+        else:
+            return None
+        ops.append(f"(.q .{op})" if depth_at(body, m.start()) > 0 else f".{op}")
+    return ops
+
+
+def read_ops(body):
+    ops = []
+    for m in re.finditer(r"buffer\s*\.\s*read_(\w+)\s*\(\s*\)\s*\.\s*await\s*\?", body):
+        kind = m.group(1)
+        tail = body[m.end():]
+        tail = tail[:tail.find(";")] if ";" in tail else tail
+        # stop at a block opening (an `if cond {`): what follows belongs to other statements
+        tail = tail.split("{")[0]
+        tail = re.sub(r"\s+", "", tail)
+        if kind == "varint":
+            if ".try_into()" in tail:
+                op = "varintTryInto"
+            elif tail.startswith("asu16"):
+                op = "varintAsU16"
+            elif tail in ("", ")"):
+                op = "varint"
+            else:
+                return None
+        elif kind == "bytes":
+            if ".try_into()" in tail:
+                op = "bytesTryInto"
+            elif tail in ("", ")"):
+                op = "bytes"
+            else:
+                return None
+        elif kind in READ_SIMPLE:
+            op = READ_SIMPLE[kind]
+        else:
+            return None
+        ops.append(f"(.q .{op})" if depth_at(body, m.start()) > 0 else f".{op}")
+    return ops
+
+
+def extract_packets(repo, notes):
+    facts = []
+    for phase, fname in enumerate(["handshake.rs", "status.rs", "login.rs", "configuration.rs"]):
+        src = read(repo, "passage-packets/src/" + fname)
+        if src is None:
+            notes.append(f"extraction: unparsed packets ({fname} unreadable)")
+            return None
+        # drop the test module
+        t = src.find("#[cfg(test)]\nmod tests")
+        if t >= 0:
+            src = src[:t]
+        for d, mod in enumerate(["clientbound", "serverbound"]):
+            blk = block_after(src, r"pub\s+mod\s+" + mod + r"\s*\{")
+            if blk is None:
+                continue
+            names = re.findall(r"impl\s+Packet\s+for\s+(\w+)", blk)
+            for name in names:
+                pb = block_after(blk, r"impl\s+Packet\s+for\s+" + name + r"\s*\{")
+                m = re.search(r"const\s+ID\s*:\s*VarInt\s*=\s*(0x[0-9A-Fa-f]+|\d+)\s*;", pb or "")
+                wb = block_after(blk, r"impl\s+WritePacket\s+for\s+" + name + r"\s*\{")
+                rb = block_after(blk, r"impl\s+ReadPacket\s+for\s+" + name + r"\s*\{")
+                if not m or wb is None or rb is None:
+                    notes.append(f"extraction: unparsed packets ({fname}::{mod}::{name})")
+                    return None
+                wbody, rbody = fn_body(wb, "write_to_buffer"), fn_body(rb, "read_from_buffer")
+                if wbody is None or rbody is None:
+                    notes.append(f"extraction: unparsed packets ({fname}::{mod}::{name} fn)")
+                    return None
+                w, r = write_ops(wbody), read_ops(rbody)
+                if w is None or r is None:
+                    notes.append(f"extraction: unparsed packets ({fname}::{mod}::{name} ops)")
+                    return None
+                facts.append((phase, d, int(m.group(1), 0), w, r, f"{fname[:-3]}.{name}"))
+    if len(facts) < 10:
+        notes.append("extraction: unparsed packets (too few found)")
+        return None
+    return facts
+
+
+def extract_enums(repo, notes):
+    src = read(repo, "passage-packets/src/lib.rs")
+    if src is None:
+        notes.append("extraction: unparsed enums")
+        return None
+    out = []
+    for m in re.finditer(r"impl\s+From<(\w+)>\s+for\s+VarInt\s*\{", src):
+        e = m.group(1)
+        blk = src[m.end() - 1:match_brace(src, m.end() - 1)]
+        fwd = {v: int(n) for v, n in re.findall(e + r"::(\w+)\s*=>\s*(\d+)", blk)}
+        tb = block_after(src, r"impl\s+TryFrom<VarInt>\s+for\s+" + e + r"\s*\{")
+        if tb is None or not fwd:
+            notes.append(f"extraction: unparsed enums ({e})")
+            return None
+        back = {v: int(n) for n, v in re.findall(r"(\d+)\s*=>\s*Ok\(\s*" + e + r"::(\w+)\s*\)", tb)}
+        has_reject = re.search(r"_\s*=>\s*Err\(", tb) is not None
+        vals = sorted(fwd.values())
+        contiguous = vals == list(range(vals[0], vals[0] + len(vals)))
+        if fwd == back and contiguous and has_reject:
+            out.append((vals[0], len(vals)))
+        else:
+            out.append((999, 0))   # a fact, not a parse failure: the tables disagree or have gaps
+            notes.append(f"extraction: enum {e} tables inconsistent: {fwd} vs {back}")
+    return out
 
 
 def main():
@@ -51,6 +253,18 @@ def main():
         "keepAliveInterval": const_nat(conn, "KEEP_ALIVE_INTERVAL"),
         "defaultConnectionTimeout": const_nat(lst, "DEFAULT_CONNECTION_TIMEOUT"),
     }
+    rd = read(repo, "passage-packets/src/reader.rs")
+    for fn, key in [("read_varint", "readVarintGroups"), ("read_varlong", "readVarlongGroups")]:
+        v = None
+        if rd is not None:
+            m = re.search(r"async\s+fn\s+" + fn + r"\b", rd)
+            if m:
+                i = rd.find("{", m.end())
+                body = rd[i:match_brace(rd, i)]
+                loops = re.findall(r"for\s+\w+\s+in\s+0\s*\.\.\s*(\d+)\s*\{", body)
+                if len(loops) == 1:
+                    v = int(loops[0])
+        consts[key] = v
     for k, v in consts.items():
         if v is None:
             notes.append(f"extraction: unparsed constant {k}")
@@ -59,9 +273,24 @@ def main():
         body += f"def {k} : Option Nat := {opt(v)}\n"
     body += "\nend Passage.Extracted\n"
     path = os.path.join(out, "Constants.lean")
-    if not os.path.exists(path) or open(path).read() != body:
-        open(path, "w").write(body)
+    write_if_changed(path, body)
     print(f"extracted constants: {consts}")
+    facts = extract_packets(repo, notes)
+    enums = extract_enums(repo, notes)
+    body = "import Passage.Codec.Packets\n/- GENERATED by extract/extract.py from /repo on every run — do not edit. -/\nnamespace Passage.Extracted\nopen Passage.Codec Passage.Codec.Op\n\n"
+    if facts is None:
+        body += "def packets : Option (List PacketFact) := none\n"
+    else:
+        body += "def packets : Option (List PacketFact) := some [\n"
+        body += ",\n".join(f"  ({p}, {d}, {i}, [{', '.join(w)}], [{', '.join(r)}])  -- {n}" .replace("  -- ", " /- ").rstrip() + " -/" for p, d, i, w, r, n in facts)
+        body += "]\n"
+    if enums is None:
+        body += "def enums : Option (List EnumFact) := none\n"
+    else:
+        body += "def enums : Option (List EnumFact) := some [" + ", ".join(f"({a}, {b})" for a, b in enums) + "]\n"
+    body += "\nend Passage.Extracted\n"
+    write_if_changed(os.path.join(out, "Packets.lean"), body)
+    print(f"extracted packets: {None if facts is None else len(facts)}; enums: {enums}")
     for n in notes:
         print(n)
 
